@@ -542,7 +542,7 @@ func readerLimitRule(w *World, r *Report, rule string) {
 		}
 	}
 	r.add(rule, nil, "order comparisons in the reading code", token.NoPos, "ok", fmt.Sprintf("%d comparisons examined", n))
-	r.floor(rule, "order comparisons in the reading code", n, 3)
+	r.floor(rule, "order comparisons in the reading code", n, 1)
 }
 
 // atomSiteRule: what a single token means is decided in one place, the atom reader, case by case on the token's
@@ -585,4 +585,151 @@ func atomSiteRule(w *World, r *Report, rule string) {
 		}
 	}
 	r.floor(rule, "returns of the reader's parsing functions outside the atom reader", n, 10)
+}
+
+// keyContentRule: which strings can be keys of a hash-map or members of a set is a matter of type only
+// (strings and keywords are Go strings). The collection builders the reader calls therefore refuse a key by
+// its dynamic type, never by what the string contains: a builder that answers an error on the edge of a
+// comparison of string contents (with a constant, or of a length) refuses some string the printer wrote.
+func keyContentRule(w *World, r *Report, rule string) {
+	r.rule(rule, "in the collection builders of the types package that the reader's functions call (hash-map, set) no error return lies behind a comparison of string contents or of a string's length with a constant: every string - the empty one included - is accepted as a key, so what the printer wrote is read back")
+	builders := map[*ssa.Function]bool{}
+	for _, f := range w.pkgFuncs("reader") {
+		if !isReaderFn(f) {
+			continue
+		}
+		for _, b := range f.Blocks {
+			for _, in := range b.Instrs {
+				if c, ok := in.(*ssa.Call); ok {
+					if sc := c.Call.StaticCallee(); sc != nil && fnPkgPath(sc) == modPath+"/types" && hasErrorResult(sc) >= 0 && len(sc.Blocks) > 0 {
+						for _, h := range w.withPkgHelpers(sc) {
+							builders[h] = true
+						}
+					}
+				}
+			}
+		}
+	}
+	isStr := func(v ssa.Value) bool {
+		bt, ok := v.Type().Underlying().(*types.Basic)
+		return ok && bt.Info()&types.IsString != 0
+	}
+	isStrLen := func(v ssa.Value) bool {
+		c, ok := v.(*ssa.Call)
+		if !ok {
+			return false
+		}
+		bi, ok := c.Call.Value.(*ssa.Builtin)
+		return ok && bi.Name() == "len" && isStr(c.Call.Args[0])
+	}
+	n := 0
+	for fn := range builders {
+		if hasErrorResult(fn) < 0 {
+			continue
+		}
+		n++
+		for _, d := range fn.Blocks {
+			iff := blockIf(d)
+			if iff == nil {
+				continue
+			}
+			bo, ok := iff.Cond.(*ssa.BinOp)
+			if !ok {
+				continue
+			}
+			_, cx := bo.X.(*ssa.Const)
+			_, cy := bo.Y.(*ssa.Const)
+			content := (isStr(bo.X) && cy) || (isStr(bo.Y) && cx) || (isStrLen(bo.X) && cy) || (isStrLen(bo.Y) && cx)
+			if !content {
+				continue
+			}
+			for _, rt := range errorReturns(fn) {
+				ret := rt[0].(*ssa.Return)
+				ev, _ := rt[2].(ssa.Value)
+				if ev == nil || isNilConst(ev) || !isErrorType(ev.Type()) {
+					continue
+				}
+				if edgeDominates(d, 0, ret.Block()) || edgeDominates(d, 1, ret.Block()) {
+					r.bad(rule, fn, "key refused for what it contains", bo.Pos(), "an error is returned depending on "+describeVal(nil, bo, 0)+": a string with that content is a value the printer writes and the reader then refuses (or, for the empty string, the whole collection is unreadable)")
+				}
+			}
+		}
+	}
+	r.add(rule, nil, "collection builders called by the reader", token.NoPos, "ok", fmt.Sprintf("%d functions examined", n))
+	r.floor(rule, "collection builders called by the reader", n, 2)
+}
+
+// peekNextRule: every decision of the reader (is this the closer? the end of the text? a stray closer?) is
+// taken on the token peek shows, and the token is then taken with next. The two must show the same token:
+// both hand out the element at the cursor position they were entered with - next moves the cursor only
+// after it has read that element, by one, and neither of them loops (skipping tokens in one of them makes
+// the other's answer a lie: a closer that was never tested is handed out as an atom).
+func peekNextRule(w *World, r *Report, rule string) {
+	r.rule(rule, "the advancing and the non-advancing token accessor hand out the same token: each indexes the token list with the cursor position as it was on entry; the advancing one stores position+1 exactly once, after reading the element; neither contains a loop (no token is skipped by one and seen by the other)")
+	next, peek := w.tokenAccessors()
+	if next == nil || peek == nil {
+		r.undecided(rule, nil, "token accessors", token.NoPos, "the advancing / non-advancing accessors of the token reader are not found")
+		return
+	}
+	n := 0
+	for _, f := range []*ssa.Function{next, peek} {
+		for _, g := range w.withPkgHelpers(f) {
+			n++
+			r.check(len(naturalLoops(g)) == 0, rule, g, "straight-line accessor", g.Pos(), "no loop", "a token accessor loops over tokens: the tokens it skips are seen by the other accessor (or the other way round), so what the reader tested is not what it consumes")
+		}
+		// position stores
+		var stores []*ssa.Store
+		var posField *ssa.FieldAddr
+		for _, b := range f.Blocks {
+			for _, in := range b.Instrs {
+				if st, ok := in.(*ssa.Store); ok {
+					if fa, ok := st.Addr.(*ssa.FieldAddr); ok && fa.X == ssa.Value(f.Params[0]) && isIntType(st.Val.Type()) {
+						stores = append(stores, st)
+						posField = fa
+					}
+				}
+			}
+		}
+		if f == next {
+			n++
+			okStep := len(stores) == 1
+			if okStep {
+				bo, ok := stores[0].Val.(*ssa.BinOp)
+				okStep = ok && bo.Op == token.ADD
+				if okStep {
+					k, isK := bo.Y.(*ssa.Const)
+					okStep = isK && k.Value != nil && k.Int64() == 1
+				}
+			}
+			r.check(okStep, rule, f, "cursor advance", f.Pos(), "one store of position+1", fmt.Sprintf("the advancing accessor moves the cursor %d times or by something other than one: it consumes tokens the reader never looked at", len(stores)))
+		}
+		// the element handed out is read before the cursor moves
+		for _, b := range f.Blocks {
+			for _, in := range b.Instrs {
+				ia, ok := in.(*ssa.IndexAddr)
+				if !ok {
+					continue
+				}
+				n++
+				before := true
+				for _, st := range stores {
+					if st.Block() == b {
+						for _, x := range b.Instrs {
+							if x == ssa.Instruction(st) {
+								before = false
+							}
+							if x == in {
+								break
+							}
+						}
+					} else if st.Block().Dominates(b) || blockReaches(st.Block(), b, false) {
+						before = false
+					}
+				}
+				_ = posField
+				r.check(before, rule, f, "token handed out", ia.Pos(), "the element at the entry position", "the cursor is moved before the token is read: the accessor hands out a different token from the one the other accessor shows")
+			}
+		}
+	}
+	r.floor(rule, "checks on the token accessors", n, 4)
 }
